@@ -327,7 +327,7 @@ pub fn run_c16(tier: &str, seed: u64) -> campaign::CampaignResult {
         }
     }
     // ---- dynamic part: execute the emitted rule functions on states with a known new/old split
-    let (nd, nh) = if tier == "thorough" { (800, 200) } else { (48, 60) };
+    let (nd, nh) = if tier == "thorough" { (400, 150) } else { (48, 60) };
     let nd = std::env::var("EQV_NDYN").ok().and_then(|v| v.parse().ok()).unwrap_or(nd);
     let dyn_profiles: Vec<String> = vec!["surjective".into(), "stratified".into(), "medium".into(), "free".into(), "with_enums".into()];
     let dprogs = draw_programs(seed ^ 0x16d, &dyn_profiles, nd);
